@@ -177,7 +177,7 @@ impl<const SEED_SIZE: usize> Encode for Poplar1InputShare<SEED_SIZE> {
 
     fn encoded_len(&self) -> Option<usize> {
         let mut len = 0;
-        len += SEED_SIZE; // idpf_key
+        len += 16; // idpf_key
         len += SEED_SIZE; // corr_seed
         len += self.corr_inner.len() * 2 * Field64::ENCODED_SIZE; // corr_inner
         len += 2 * Field255::ENCODED_SIZE; // corr_leaf
